@@ -1,8 +1,8 @@
 """End-to-end tool scenarios for the ENV checks C12 (partial transfers) and C13 (fail-stop).
 A scenario is prepared once (inputs on disk) and can be run many times under different plans, each run in
 its own output directory. snapshot() captures everything the user would observe."""
-import os, io, gzip, shutil, stat, hashlib, tempfile, tarfile
-from vlib import treegen, scenarios, envrun, packcheck
+import os, io, gzip, shutil, stat, hashlib, tempfile, tarfile, lzma, bz2
+from vlib import treegen, scenarios, envrun, packcheck, tarmk, tarcases, codecs
 from vlib.common import sha, sha_file, run_tool
 from vlib.treegen import E, content_pattern
 
@@ -142,4 +142,45 @@ def build_scenarios(T, base, tier, serial_T=None):
                  lambda b, out: [T["rdsquashfs"], "-q", "-u", "/", "-p", out, "-Z", os.path.join(b, "img.sqfs")], "tree"))
     S.append(Scn("rdsquashfs-describe", "rdsquashfs", T, os.path.join(base, "s10"), prep_img,
                  lambda b, out: [T["rdsquashfs"], "-d", os.path.join(b, "img.sqfs")], "stdout"))
+    # S11: glob pack file over a directory (scans with readdir/stat, reads file contents)
+    def prep_glob(b):
+        treegen.render_dir(rich, os.path.join(b, "root"))
+        open(os.path.join(b, "glob.txt"), "wb").write(b"dir /x 0755 0 0\nglob /x 0644 5 6 -type f ./d\nglob /y 0755 0 0 -type d .\n")
+    S.append(Scn("gensquashfs-glob", "gensquashfs", T, os.path.join(base, "s11"), prep_glob,
+                 lambda b, out: [T["gensquashfs"], "-q", "-b", "4096", "-j", "1", "-c", "zstd", "-F", os.path.join(b, "glob.txt"), "-D", os.path.join(b, "root"), out],
+                 "image", packer=True))
+
+    # S12: tar2sqfs from a PAX archive with xattrs, a sparse file, long names and a hard link
+    def prep_pax(b):
+        TE = tarcases.E
+        sp = content_pattern("s0", 512) + bytes(1024) + content_pattern("s1", 512) + bytes(3 * B) + content_pattern("s2", 100)
+        ents = [TE(b"d", "dir"), TE(tarcases.name_of_len(180), "file", content=content_pattern("ln", 700), xattrs={b"user.a": b"1", b"security.s": b"\x00\x01bin"}),
+                TE(b"d/sparse", "file", content=sp, holes=[(512, 1024), (2048, 3 * B)], sparse="1.0"),
+                TE(b"d/f", "file", content=content_pattern("f", B + 5), uid=1 << 22, gid=7, pax_ids=True), TE(b"d/h", "link", target=b"d/f"),
+                TE(b"d/l", "slink", target=tarcases.name_of_len(150, 40))]
+        open(os.path.join(b, "in.tar"), "wb").write(tarmk.archive(ents, "pax"))
+    S.append(Scn("tar2sqfs-pax-xattr-sparse", "tar2sqfs", T, os.path.join(base, "s12"), prep_pax,
+                 lambda b, out: [T["tar2sqfs"], "-q", "-b", "4096", "-j", "1", "-c", "gzip", out], "image", packer=True, stdin_file=lambda b: os.path.join(b, "in.tar")))
+
+    # S13: rdsquashfs xattr dump and stat (xattr reader, id table)
+    S.append(Scn("rdsquashfs-xattr", "rdsquashfs", T, os.path.join(base, "s13"), prep_img,
+                 lambda b, out: [T["rdsquashfs"], "-x", "x", os.path.join(b, "img.sqfs")], "stdout"))
+    if tier == "thorough":
+        def prep_tarz(b):
+            t = scenarios.make_tar(rich)
+            for ext, c in (("xz", "xz"), ("zst", "zstd"), ("bz2", "bzip2")):
+                open(os.path.join(b, "in.tar." + ext), "wb").write(codecs.compress(c, t))
+        for ext in ("xz", "zst", "bz2"):
+            S.append(Scn("tar2sqfs-" + ext, "tar2sqfs", T, os.path.join(base, "s14" + ext), prep_tarz,
+                         lambda b, out: [T["tar2sqfs"], "-q", "-b", "4096", "-j", "1", "-c", "gzip", out], "image", packer=True,
+                         stdin_file=lambda b, ext=ext: os.path.join(b, "in.tar." + ext)))
+        for c in ("gzip", "zstd", "bzip2"):
+            S.append(Scn("sqfs2tar-" + c, "sqfs2tar", T, os.path.join(base, "s15" + c), prep_img,
+                         lambda b, out, c=c: [T["sqfs2tar"], "-c", c, os.path.join(b, "img.sqfs")], "stdout"))
+        S.append(Scn("sqfs2tar-subdir-nohardlinks", "sqfs2tar", T, os.path.join(base, "s16"), prep_img,
+                     lambda b, out: [T["sqfs2tar"], "-d", "d", "-L", os.path.join(b, "img.sqfs")], "stdout"))
+        S.append(Scn("rdsquashfs-list", "rdsquashfs", T, os.path.join(base, "s17"), prep_img,
+                     lambda b, out: [T["rdsquashfs"], "-l", "d", os.path.join(b, "img.sqfs")], "stdout"))
+        S.append(Scn("rdsquashfs-stat", "rdsquashfs", T, os.path.join(base, "s18"), prep_img,
+                     lambda b, out: [T["rdsquashfs"], "-s", "d/zero", os.path.join(b, "img.sqfs")], "stdout"))
     return S
